@@ -55,14 +55,14 @@ Qed.
 
 Lemma loop_sg_conservative pinned ic : forall fuel st cur,
   loop_sg pinned c fuel st ic cur =
-  do m <- iterate fuel (sg_main c) (sm st) ic cur; Ok {| sm := m; ss := ss st; scnt := scnt st |}.
+  do m <- iterate fuel (sg_main c) (sm st) ic cur; Ok {| sm := m; ss := ss st; scnt := scnt st; scal := scal st |}.
 Proof.
   induction fuel as [|f IH]; intros st [[e i0]|]; cbn [loop_sg iterate bind]; try reflexivity;
     try (destruct st; reflexivity).
   rewrite step_sg_conservative. unfold lift_main.
     destruct (eval_single (sg_main c) (sm st) ic e i0) as [[[a m1] i1]|?|?]; cbn [bind]; auto.
     destruct a; auto. destruct (next false i1) as [nx|?|?]; cbn [bind]; auto.
-    rewrite (IH {| sm := m1; ss := ss st; scnt := scnt st |} nx). reflexivity.
+    rewrite (IH {| sm := m1; ss := ss st; scnt := scnt st; scal := scal st |} nx). reflexivity.
 Qed.
 
 End NoSubs.
@@ -118,12 +118,14 @@ Proof.
   destruct (pend_identified _ _); cbn [bind nofault] in *; auto.
   match goal with |- context [gcs_exec ?g ?s ?k] => pose proof (gcs_exec_nofault g s k) as H2; destruct (gcs_exec g s k) end;
     cbn [bind nofault] in *; auto.
-  destruct ic; cbn [bind card_got].
+  destruct ic; cbn [bind].
   - destruct (inv (sm st)); auto.
     pose proof (sub_take_ok (snd (nth j (sg_subs c) (POSKEY, cfg_nil))) (S (msize_it cur))
                   (nth j (ss st) st_nil) cur Hok ltac:(pose proof (msize_le_words cur); lia)) as H3.
     destruct (sub_take _ _ _ cur) as [[s1 ai]|?|?]; cbn [bind] in *; auto.
-  - destruct (inv (sm st)); auto.
+  - pose proof (card_got_nofault (snd (sub_rule c j)) (nth j (scnt st) 0%Z)) as Hc.
+    destruct (card_got _ _); cbn [bind nofault] in *; auto.
+    destruct (inv (sm st)); auto.
     pose proof (sub_take_ok (snd (nth j (sg_subs c) (POSKEY, cfg_nil))) (S (msize_it cur))
                   (nth j (ss st) st_nil) cur Hok ltac:(pose proof (msize_le_words cur); lia)) as H3.
     destruct (sub_take _ _ _ cur) as [[s1 ai]|?|?]; cbn [bind] in *; auto.
@@ -159,10 +161,24 @@ Proof.
   - destruct f; cbn; auto.
 Qed.
 
+Lemma check_sub_rules_nofault : forall rules cnts cals, nofault (check_sub_rules rules cnts cals).
+Proof.
+  induction rules as [|[m cd] rr IH]; intros [|n nr] [|b br]; cbn [check_sub_rules nofault]; auto.
+  destruct (m && negb b); cbn [nofault]; auto.
+  apply bind_nofault; [apply card_end_nofault|intros; apply IH].
+Qed.
+
+Lemma final_checks_sg_nofault c st : nofault (final_checks_sg c st).
+Proof.
+  pose proof (final_checks_nofault (sg_main c) (sm st)) as H. unfold final_checks in H. unfold final_checks_sg.
+  destruct (check_mandatory_card (args (sg_main c)) (arts (sm st))); cbn [bind nofault] in *; auto.
+  apply bind_nofault; [apply check_sub_rules_nofault|intros _ _; exact H].
+Qed.
+
 Theorem eval_sg_nofault c inits sub_inits argv : nofault (eval_sg false c inits sub_inits argv).
 Proof.
   unfold eval_sg, words_sg.
-  apply bind_nofault; [|intros st _; apply bind_nofault; [apply final_checks_nofault|intros; cbn; auto]].
+  apply bind_nofault; [|intros st _; apply bind_nofault; [apply final_checks_sg_nofault|intros; cbn; auto]].
   pose proof (first_ok argv) as Hf.
   destruct (first argv) as [[[e i0]|]|?|?]; cbn [bind step_ok nofault] in *; auto.
   destruct Hf. apply loop_sg_nofault; auto.
@@ -178,7 +194,8 @@ Definition sgx_flag (k : key) : argdef :=
 Definition sgx_cfg : sgcfg :=
   {| sg_main := {| args := [sgx_flag (key_of_char 118%N)]; gcons := []; abbr := true; fixed_notify := true |};
      sg_subs := [(key_of_char 111%N,
-                  {| args := [sgx_flag (key_of_char 113%N)]; gcons := []; abbr := true; fixed_notify := true |})] |}.
+                  {| args := [sgx_flag (key_of_char 113%N)]; gcons := []; abbr := true; fixed_notify := true |})];
+     sg_rules := [(false, CardNone)] |}.
 Definition argv_o_x : list str := [[45; 111]; [45; 120]]%N.          (* -o -x : -x is unknown to everybody *)
 Definition argv_o_x_v : list str := [[45; 111]; [45; 120]; [45; 118]]%N.
 
@@ -242,5 +259,48 @@ Proof. vm_compute. reflexivity. Qed.
 Example sg_keys_taken_example :
   sg_keys_ok {| sg_main := {| args := [sgx_flag {| kc := 111%N; kw := [111; 117; 116]%N |}]; gcons := []; abbr := true;
                              fixed_notify := true |};
-                sg_subs := [(key_of_char 111%N, cfg_nil)] |} = false.
+                sg_subs := [(key_of_char 111%N, cfg_nil)]; sg_rules := [] |} = false.
 Proof. vm_compute. reflexivity. Qed.
+
+(* ------------------------------------------------------------------ *)
+(** * The rules on the sub-group arguments themselves *)
+
+Lemma check_sub_rules_spec : forall rules cnts cals,
+  check_sub_rules rules cnts cals = Ok tt ->
+  forall j m cd, nth_error rules j = Some (m, cd) -> j < length cnts -> j < length cals ->
+    (m = true -> nth j cals false = true) /\ card_end cd (nth j cnts 0%Z) = Ok tt.
+Proof.
+  induction rules as [|[m0 cd0] rr IH]; intros cnts cals H j m cd Hj Hl1 Hl2; [destruct j; discriminate|].
+  destruct cnts as [|n nr]; [cbn in Hl1; lia|]. destruct cals as [|b br]; [cbn in Hl2; lia|].
+  cbn [check_sub_rules] in H. destruct (m0 && negb b) eqn:Em; [discriminate|].
+  destruct (card_end cd0 n) as [[]|?|?] eqn:Ec; cbn [bind] in H; try discriminate.
+  destruct j as [|j]; cbn [nth_error nth] in *.
+  - inversion Hj; subst. split; [|exact Ec]. intros ->. cbn [andb] in Em. destruct b; [reflexivity|discriminate].
+  - cbn [length] in Hl1, Hl2. eapply IH; eauto; lia.
+Qed.
+
+(** a normal return of the evaluation: every mandatory sub-group argument was
+    used and the number of uses of each satisfies its cardinality *)
+Theorem eval_sg_obeys_sub_rules pinned c inits sub_inits argv st :
+  eval_sg pinned c inits sub_inits argv = Ok st ->
+  forall j m cd, nth_error (sg_rules c) j = Some (m, cd) -> j < length (scnt st) -> j < length (scal st) ->
+    (m = true -> nth j (scal st) false = true) /\ card_end cd (nth j (scnt st) 0%Z) = Ok tt.
+Proof.
+  unfold eval_sg. intros H.
+  destruct (words_sg pinned c (init_sg c inits sub_inits) false argv) as [st1|?|?]; cbn [bind] in H; try discriminate.
+  unfold final_checks_sg in H.
+  destruct (check_mandatory_card _ _) as [[]|?|?]; cbn [bind] in H; try discriminate.
+  destruct (check_sub_rules (sg_rules c) (scnt st1) (scal st1)) as [[]|?|?] eqn:Er; cbn [bind] in H; try discriminate.
+  destruct (pend_check_required _) as [[]|?|?]; cbn [bind] in H; try discriminate.
+  destruct (gcs_end _ _ _) as [[]|?|?]; cbn [bind] in H; try discriminate.
+  inversion H; subst. apply check_sub_rules_spec. exact Er.
+Qed.
+
+(** non-vacuity: a mandatory sub-group argument that is not used is refused, used it is accepted *)
+Definition sgx_cfg_mand : sgcfg :=
+  {| sg_main := sg_main sgx_cfg; sg_subs := sg_subs sgx_cfg; sg_rules := [(true, CardMax 1)] |}.
+Example sub_rule_examples :
+  eval_sg false sgx_cfg_mand [VBool false] [[VBool false]] [[45; 118]]%N = Err ERuntime /\
+  is_ok (eval_sg false sgx_cfg_mand [VBool false] [[VBool false]] [[45; 111]; [45; 113]]%N) = true /\
+  eval_sg false sgx_cfg_mand [VBool false] [[VBool false]] [[45; 111]; [45; 111]]%N = Err ERuntime.
+Proof. repeat split; vm_compute; reflexivity. Qed.
